@@ -1178,13 +1178,14 @@ class RouterSessionManager(SessionManager):
 
             if use_route_table:
                 route = self.node.route_table.find_best_route(dst_ip_address)
-                if not route:
-                    raise Exception("cannot use route to resolve outbound details")
-
-                dst_mac_address = self.software_manager.arp.get_arp_cache_mac_address(route.next_hop_ip_address)
-                outbound_network_interface = self.software_manager.arp.get_arp_cache_network_interface(
-                    route.next_hop_ip_address
-                )
+                if route:
+                    dst_mac_address = self.software_manager.arp.get_arp_cache_mac_address(route.next_hop_ip_address)
+                    outbound_network_interface = self.software_manager.arp.get_arp_cache_network_interface(
+                        route.next_hop_ip_address
+                    )
+                else:
+                    # no route: nothing can be sent (the caller drops the payload when there is no interface / MAC)
+                    self.sys_log.info(f"No route to {dst_ip_address}: cannot resolve outbound transmission details")
         return outbound_network_interface, dst_mac_address, dst_ip_address, src_port, dst_port, protocol, is_broadcast
 
 
